@@ -610,6 +610,11 @@ class Run:
                     i = op.get("at", 0) % len(expected)
                     sb.sb_commands.commands[i] = cmd
                     expected[i] = tup
+                elif how == "edit" and expected and op["cmd"].get("a") is not None and expected[op.get("at", 0) % len(expected)][0] in ("erase", "load", "execute", "call", "fill_memory"):
+                    # a field of a command that is already in the list is changed between two exports
+                    i = op.get("at", 0) % len(expected)
+                    sb.sb_commands.commands[i].address = op["cmd"]["a"]
+                    expected[i] = (expected[i][0], op["cmd"]["a"]) + tuple(expected[i][2:])
                 elif how == "insert":
                     i = op.get("at", 0) % (len(expected) + 1)
                     sb.sb_commands.insert_command(i, cmd)
@@ -961,7 +966,7 @@ def gen_plan(family: str, i: int, rng: random.Random, tier: str) -> dict:
             elif r < 0.75:
                 for _j in range(rng.randint(1, 3)):
                     # between two exports the command list is changed through the API or edited in place
-                    ops.append({"op": "add", "cmd": gen_cmd(rng), "how": rng.choice(["api", "api", "append", "replace", "insert", "set"]), "at": rng.randrange(8)})
+                    ops.append({"op": "add", "cmd": gen_cmd(rng), "how": rng.choice(["api", "api", "append", "replace", "insert", "set", "edit", "edit"]), "at": rng.randrange(8)})
                 ops.append({"op": "export"})
             elif r < 0.85:
                 ops.append({"op": "tick", "us": rng.choice([1, 1_000_000, 3_600_000_000])})
